@@ -411,6 +411,21 @@ def _(p):
     return None if len(out) == p["df"] else f"wrong-column-count: bs(df={p['df']}) gave {len(out)} columns"
 
 
+@replay("c12_crs_df")
+def _(p):
+    from formulaic.transforms import TRANSFORMS
+
+    st = {}
+    out = TRANSFORMS["cc" if p["cyclic"] else "cr"](numpy.array(p["train"]), df=p["df"], _state=st)
+    kn = [float(k) for k in st.get("knots", [])]
+    want = p["df"] + 1 if p["cyclic"] else p["df"]
+    if len(out) != p["df"]:
+        return f"wrong-column-count: {'cc' if p['cyclic'] else 'cr'}(df={p['df']}) gave {len(out)} columns"
+    if len(kn) != want or kn != sorted(kn) or len(set(kn)) != len(kn) or kn[0] < min(p["train"]) or kn[-1] > max(p["train"]):
+        return f"bad-knots: recorded knots {kn} (need {want} distinct sorted knots inside the data range)"
+    return None
+
+
 @replay("c12_bs_nulls")
 def _(p):
     from formulaic.transforms import TRANSFORMS
